@@ -156,6 +156,35 @@ func genCorruptions(r *core.Rand, e *kmodel.Engine) []*corruption {
 					}
 				}})
 		}
+		// unfixable: null in a non-nullable foreign key field (three stored spellings of null)
+		nilPut := func(tx *bbolt.Tx, field string, how int) error {
+			b := bpath(tx, "stores", "emps", id)
+			switch how {
+			case 0:
+				return b.Put([]byte(field), []byte{byte(boltz.TypeNil)})
+			case 1:
+				return b.Put([]byte(field), nil)
+			}
+			return b.Delete([]byte(field))
+		}
+		how := r.Intn(3)
+		if !nullableDept {
+			add(&corruption{Class: "null-in-non-nullable-fk-index", Desc: fmt.Sprintf("emps[%q].dept = nil (spelling %d), back-reference removed", id, how), Needles: [][]string{{"dept", id, "nil"}}, Unfixable: true,
+				apply: func(tx *bbolt.Tx) error {
+					if d, ok := m.Ents[kmodel.Emps][id].V["dept"].(string); ok && d != "" {
+						if b := bpath(tx, "stores", "depts", d, "members"); b != nil {
+							if err := b.Delete(tkey(id)); err != nil {
+								return err
+							}
+						}
+					}
+					return nilPut(tx, "dept", how)
+				}})
+		}
+		if !e.Cfg.BossNullable {
+			add(&corruption{Class: "null-in-non-nullable-fk-constraint", Desc: fmt.Sprintf("emps[%q].boss = nil (spelling %d)", id, how), Needles: [][]string{{"boss", id, "nil"}}, Unfixable: true,
+				apply: func(tx *bbolt.Tx) error { return nilPut(tx, "boss", how) }})
+		}
 		// links
 		for _, d := range m.LinksOf(kmodel.Emps, id) {
 			d := d
@@ -339,8 +368,8 @@ func init() {
 		ID:    "C09",
 		Level: "exploration",
 		Rule: "consistent states reached through the API (random histories over schema K) must produce zero reports in check-only mode (read-only and writable transaction) and in fix mode; then a committed raw-write transaction injects a random subset (1-6) of " +
-			"corruptions from 20 classes (unique index missing / dangling / wrong-target / stale entry; set index missing entry / missing value key / dangling / non-holder entry / empty bucket; fk missing / dangling / non-matching back-reference, dangling reference nullable or not; " +
-			"links one-sided either side / dangling; duplicate unique values; null in non-nullable). Oracle: every injected inconsistency is covered by a report naming its value and id(s), in View and Update check-only runs, which leave the whole-file dump unchanged and do not panic or fail; " +
+			"corruptions from 22 classes (unique index missing / dangling / wrong-target / stale entry; set index missing entry / missing value key / dangling / non-holder entry / empty bucket; fk missing / dangling / non-matching back-reference, dangling reference nullable or not; " +
+			"links one-sided either side / dangling; duplicate unique values; null in a non-nullable unique field, fk-index field and fk-constraint field in three stored spellings). Oracle: every injected inconsistency is covered by a report naming its value and id(s), in View and Update check-only runs, which leave the whole-file dump unchanged and do not panic or fail; " +
 			"one fix pass then leaves only the predicted unfixable reports on re-check and (when none is unfixable) a structural-monitor-clean database equal to the model. non-trivial = distinct corruption-class subsets of size >= 2",
 		Assumptions: []string{"report matching is by mention of the index/field name, value and ids (wording not judged); extra reports on a corrupted database are not judged", "ref-counted link collections are not part of CheckIntegrity (not injected)"},
 		Plan: func(tier core.Tier, seed int64) int {
@@ -353,7 +382,7 @@ func init() {
 		Promises: func(core.Tier) map[string][]string {
 			return map[string][]string{"class": {"unique-missing", "unique-wrong-target", "unique-stale-value", "unique-dangling-entry", "set-missing-entry", "set-missing-value-key", "set-extra-entry-dangling",
 				"set-extra-entry-existing", "set-empty-value-bucket", "fk-missing-backref", "fk-extra-backref-dangling", "fk-extra-backref-nonmatching", "fk-dangling-dept", "fk-dangling-boss",
-				"link-one-sided-emp-side-removed", "link-one-sided-dept-side-removed", "link-dangling", "duplicate-unique-value", "null-in-non-nullable-unique"}}
+				"link-one-sided-emp-side-removed", "link-one-sided-dept-side-removed", "link-dangling", "duplicate-unique-value", "null-in-non-nullable-unique", "null-in-non-nullable-fk-index", "null-in-non-nullable-fk-constraint"}}
 		},
 		MinCounters: func(core.Tier) map[string]int64 {
 			return map[string]int64{"consistent_states_checked": 300, "corrupted_states": 300, "fix_converged_clean": 100}
@@ -618,8 +647,10 @@ func family(class string) string {
 	switch class {
 	case "unique-missing", "unique-wrong-target", "null-in-non-nullable-unique", "duplicate-unique-value":
 		return "name"
-	case "fk-missing-backref", "fk-dangling-dept", "fk-extra-backref-nonmatching":
+	case "fk-missing-backref", "fk-dangling-dept", "fk-extra-backref-nonmatching", "null-in-non-nullable-fk-index":
 		return "dept"
+	case "fk-dangling-boss", "null-in-non-nullable-fk-constraint":
+		return "boss"
 	case "set-missing-entry", "set-missing-value-key", "set-extra-entry-dangling", "set-extra-entry-existing":
 		return "roles"
 	case "link-one-sided-emp-side-removed", "link-one-sided-dept-side-removed":
